@@ -157,6 +157,12 @@ class Ob:
             self.unknown += 1
             self.notes.append(f'UNDECIDED {label}: the model depends on an abstracted bit operation')
             return 'unknown'
+        if res == z3.sat and any(k.startswith(('ret_I80F48_', 'ret_core_num_')) for k in model_dict(s.model())):
+            # an arithmetic library function without a model was treated as opaque: a gap of the encoder, never a finding
+            self.unknown += 1
+            gaps = sorted({re.sub(r'#.*', '', k) for k in model_dict(s.model()) if k.startswith(('ret_I80F48_', 'ret_core_num_'))})
+            self.notes.append(f'UNDECIDED {label}: the model depends on unmodelled library arithmetic {gaps}')
+            return 'unknown'
         if res == z3.sat:
             self.sat += 1
             self.sat_labels = getattr(self, 'sat_labels', {}); self.sat_labels[label] = self.sat_labels.get(label, 0) + 1
